@@ -152,9 +152,9 @@ def lean_build_and_audit(prop_id):
         return res
     flat = re.sub(r'\s+', ' ', out)
     seen = {}
-    for m in re.finditer(r"'([^']+)' depends on axioms: \[([^\]]*)\]", flat):
+    for m in re.finditer(r"'(\S+)' depends on axioms: \[([^\]]*)\]", flat):
         seen[m.group(1)] = [a.strip() for a in m.group(2).split(',') if a.strip()]
-    for m in re.finditer(r"'([^']+)' does not depend on any axioms", flat):
+    for m in re.finditer(r"'(\S+)' does not depend on any axioms", flat):
         seen[m.group(1)] = []
     res['obligations'] = len(names)
     for n in names:
